@@ -77,6 +77,8 @@ var fragments = []string{
 	"|", "(", ")", "[", "]", ":", ":=", "=", ",", ";", ".", "..", ".x", "$", "#", "@", "!", "?", "&", "&&", "||", "<", ">", "<=", "==",
 	"\xff", "\xc3", "\xe2\x82", "0x", "1e", "1e+", "089", "0x1g", "'a", "'\\", "\"\\", "nil", "true", "_.", "._", "x._", "\n", "\r\n", "\t", " - ", "- ", " -",
 	"-٣", "+३", "１", "٣", "-１", " -٣ ", "x٣", "Ω", "ß", "_Ω", "-Ω", "+é", ".٣", "٣.٣", "1٣", "'٣'",
+	// character and string constants: empty, plain, too long, escapes (complete and cut short), unterminated
+	"''", "'a'", "'ab'", `'\n'`, `'\''`, `'\`, "'''", "'é'", "'\xff'", "' '", `'\x4'`, `'\u12'`, `'\777'`, `"\x"`, `"\u12"`, "``", "`\n`", `'\x41'`, `'"'`,
 	"catch |", "catch 1", "catch (", "yield (", "block (", "block b(", "yield b(,)", "range ,", "if ;", ":= ", "x := ", "a, b := ", "a[", "a[:", "a[1:", "f(_", "f(_,_)", "| _", "include", "return",
 }
 
